@@ -621,6 +621,7 @@ type SchedResult struct {
 var globals0 FP                 // fingerprint of all package-level variables at process start
 var globalsZero map[string]bool // variables that held their type's zero value at process start
 var lateDone = map[string]bool{}
+var globalsLocked map[string]bool // packages that declare package-level locks
 
 // lateInit filters the names of changed package-level variables: a variable that held the zero
 // value of its type at process start and has now received a value for the first time is being
@@ -635,6 +636,22 @@ func lateInit(changed []string, res *SchedResult) []string {
 	var out []string
 	var now *FP
 	for _, n := range changed {
+		// An UNEXPORTED variable of a package that declares its own package-level locks (a cache next
+		// to its mutex) may legitimately change; whether the lock is used correctly is for the race
+		// detector and the result oracle. Exported tables stay strict.
+		if i := strings.LastIndex(n, "."); i >= 0 && i+1 < len(n) && !(n[i+1] >= 'A' && n[i+1] <= 'Z') && globalsLocked[n[:i]] {
+			if now == nil {
+				f := fpGlobals()
+				now = &f
+			}
+			for k, nm := range globals0.Names {
+				if nm == n {
+					globals0.Sums[k] = now.Sums[k]
+				}
+			}
+			res.Faults["unexported package-level state changed in a package with its own locks (left to the race detector)"]++
+			continue
+		}
 		if globalsZero[n] && !lateDone[n] {
 			lateDone[n] = true
 			if now == nil {
@@ -917,6 +934,7 @@ func schedInit() {
 	rt.InitSyncSites()
 	globals0 = fpGlobals()
 	globalsZero = zeroGlobals()
+	globalsLocked = lockedPackages()
 }
 
 func schedWorker() {
